@@ -20,11 +20,15 @@ package plugins
 //@   modifies fields(pod)
 //@   ensures pod.Name == old(pod.Name) && pod.Namespace == old(pod.Namespace) && pod.UID == old(pod.UID)
 //@ end
+// A plugin's Rollback undoes the plugin's own side objects (ConfigMaps, claims, volume reservations); it reads the
+// pod's labels and never relabels the in-memory pod (gpusharing.Rollback / K8sPlugins.Rollback -> UnAllocate only
+// read the pod): the labels Binder.Rollback hands to RemovePodGpuGroupsConnection are the ones it was given.
 //@ func Plugin.Rollback
 //@   props C11
 //@   modifies fields(pod), pluginRollbacks()
 //@   ensures pluginRollbacks() == old(pluginRollbacks()) + 1
 //@   ensures pod.Name == old(pod.Name) && pod.Namespace == old(pod.Namespace) && pod.UID == old(pod.UID)
+//@   ensures pod.Labels == old(pod.Labels)
 //@ end
 //@ func Plugin.Name
 //@   props C11
@@ -66,7 +70,9 @@ package plugins
 //@     invariant 0 - 1 <= rangeindex && rangeindex < len(bp.plugins)
 //@     invariant pluginRollbacks() == old(pluginRollbacks()) + rangeindex + 1
 //@     invariant pod.Name == old(pod.Name) && pod.Namespace == old(pod.Namespace) && pod.UID == old(pod.UID)
+//@     invariant pod.Labels == old(pod.Labels)
 //@     decreases len(bp.plugins) - rangeindex
 //@   ensures [every-plugin-rolled-back] pluginRollbacks() == old(pluginRollbacks()) + len(bp.plugins)
 //@   ensures pod.Name == old(pod.Name) && pod.Namespace == old(pod.Namespace) && pod.UID == old(pod.UID)
+//@   ensures [in-memory-labels-untouched] pod.Labels == old(pod.Labels)
 //@ end
